@@ -1,12 +1,16 @@
 #!/bin/bash
-# tools/seedbatch.sh C04 C10 ... : confirms /tmp/seedout/<ID>/{1,2} with tools/seedcheck.py, names them <ID>-s<k>
+# tools/seedbatch.sh C04 C10 ... : confirms /tmp/seedout/<ID>/{1,2,3} with tools/seedcheck.py; names them <ID>-s<n> with n
+# continuing after the highest number already present under /verif/seeded (nothing is ever overwritten)
 cd /verif
-for id in "$@"; do for k in 1 2 3; do
+for id in "$@"; do
+  n=$(ls -d seeded/$id-s* 2>/dev/null | sed 's/.*-s//' | sort -n | tail -1); n=${n:-0}
+  for k in 1 2 3; do
   d=/tmp/seedout/$id/$k; [ -f $d/patch.diff ] || continue
-  python3 tools/seedcheck.py $id $d /tmp/seed-$id $id-s$k > .scratch/seed-$id-$k.log 2>&1
+  n=$((n+1))
+  python3 tools/seedcheck.py $id $d /tmp/seed-$id $id-s$n > .scratch/seed-$id-$n.log 2>&1
   python3 - <<PY
 import json
-m=json.load(open('/verif/seeded/$id-s$k/meta.json'))['confirmed']
-print('$id-s$k', 'clean',m.get('demo_clean_exit'),'patched',m.get('demo_patched_exit'),'tests',m.get('tests_pass'), {c:(v['exit'],v['secs']) for c,v in m.get('checks',{}).items()})
+m=json.load(open('/verif/seeded/$id-s$n/meta.json'))['confirmed']
+print('$id-s$n', 'clean',m.get('demo_clean_exit'),'patched',m.get('demo_patched_exit'),'tests',m.get('tests_pass'), {c:(v['exit'],v['secs']) for c,v in m.get('checks',{}).items()})
 PY
 done; done
